@@ -20,6 +20,7 @@ NETS = {
     'L':    {1: [(0, 0), (10, 0)], 2: [(10, 0), (10, 5)], 3: [(10, 5), (20, 5)]},                     # horizontal + vertical (as in the repository's test)
     'tri':  {1: [(0, 0), (3, 4)], 2: [(3, 4), (7, 1)], 3: [(7, 1), (0, 0)]},                          # oblique edges only
     'bend': {1: [(0, 0), (4, 3), (12, 3)], 2: [(12, 3), (15, 7)], 3: [(0, 0), (6, -8)]},              # a 3-vertex edge, oblique edges
+    'dup':  {1: [(0, 0), (4, 3), (4, 3), (12, 3)], 2: [(12, 3), (15, 7)]},                            # an edge geometry with two consecutive identical vertices
 }
 INDEXES = {'r51': ((5, 1), 0.15), 'r22': ((2, 2), 0.25)}
 RADII = [2.0, 5.5, 50.0]
@@ -77,6 +78,8 @@ def on_polyline_concrete(pts, x, y):
     for (ax, ay), (bx, by) in zip(pts, pts[1:]):
         dx, dy = bx - ax, by - ay
         L2 = dx * dx + dy * dy
+        if L2 == 0:
+            continue
         lam = min(1.0, max(0.0, ((x - ax) * dx + (y - ay) * dy) / L2))
         best = min(best, math.hypot(x - (ax + lam * dx), y - (ay + lam * dy)))
     return best
@@ -100,7 +103,7 @@ class C10(Check):
         return dict(candidate_jobs='%s networks x %s indexes x radii %s, one symbolic fix' % (self._nets(tier), self._idx(tier), RADII), selection_jobs='T = 1 symbolic fix' + ('' if tier == 'quick' else ' and T = 2 (second fix concrete)'))
 
     def _nets(self, tier):
-        return ['L', 'tri'] if tier == 'quick' else ['L', 'tri', 'bend']
+        return ['L', 'tri', 'dup'] if tier == 'quick' else ['L', 'tri', 'bend', 'dup']
 
     def _idx(self, tier):
         return ['r51'] if tier == 'quick' else ['r51', 'r22']
@@ -109,12 +112,13 @@ class C10(Check):
         js = []
         for n in self._nets(tier):
             for ix in self._idx(tier):
-                for r in RADII:
+                for r in (RADII if n != 'dup' else [5.5]):
                     # the box is cut in 4 vertical strips (parallelism; the strips cover it)
                     for strip in range(4):
                         js.append(dict(kind='cand', net=n, idx=ix, radius=r, strip=strip))
                 if tier != 'quick' or n == 'L':
                     js.append(dict(kind='select', net=n, idx=ix, radius=5.5, T=1))
+                    js.append(dict(kind='select', net=n, idx=ix, radius=5.5, T=1, multi=True))      # a collection of two tracks matched in one call
                 if tier != 'quick':
                     js.append(dict(kind='select', net=n, idx=ix, radius=5.5, T=2))
         return js
@@ -155,7 +159,12 @@ class C10(Check):
             fixes.append(Obs(ENUCoords(5.0, 1.0, 0.0), ObsTime.readUnixTime(110.0)))
         tr = Track(fixes)
         before = [(o, o.position, o.timestamp, o.position.getX(), o.position.getY()) for o in fixes]
-        mp.mapOnNetwork(tr, net, search_radius=job['radius'], debug=False)
+        if job.get('multi'):
+            from tracklib.core import TrackCollection
+            first = Track([Obs(ENUCoords(5.0, 1.0, 0.0), ObsTime.readUnixTime(50.0)), Obs(ENUCoords(6.0, 1.0, 0.0), ObsTime.readUnixTime(60.0))])
+            mp.mapOnNetwork(TrackCollection([first, tr]), net, search_radius=job['radius'], debug=False)
+        else:
+            mp.mapOnNetwork(tr, net, search_radius=job['radius'], debug=False)
         return net, tr, before, mp.STATES
 
     def _check_candidate(self, ctx, job, net, px, py, cand, cls):
@@ -169,6 +178,8 @@ class C10(Check):
         for (ax, ay), (bx, by) in zip(pts, pts[1:]):
             dx, dy = float(bx - ax), float(by - ay)
             L2 = dx * dx + dy * dy
+            if L2 == 0:
+                continue
             t = z3.Q(1, 10 ** 9) * (1 + L2)
             cross = (xz - ax) * dy - (yz - ay) * dx
             dot = (xz - ax) * dx + (yz - ay) * dy
